@@ -8,7 +8,7 @@ RULE = ('PDS sets for the packaged configuration (carriers 48, 62, 123, 124, 125
         'sets needing 1..5 carriers incl. five carriers filled to exactly 999, sets needing 6 (must be refused); random sets; '
         'carriers read back with an independent frame reader; non-trivial = distinct set with at least 2 sub-elements')
 CODEC_ALIASES = True     # one implementation run in three is given an alias spelling of the codec name (worker.for_impl)
-CALL_VARIANTS = True     # bytearray / memoryview messages and earlier failing calls around the harness's loads / dumps calls (worker.install_call_variants)
+CALL_VARIANTS = True     # bytearray messages, positional arguments and earlier failing calls around the harness's loads / dumps calls (worker.install_call_variants)
 EXHAUSTIVE = {'quick': False, 'thorough': True}
 ASSUMPTIONS = ['values of 993+ characters and more chunks than carriers are outside the stated domain (refused)']
 CARRIERS = [48, 62, 123, 124, 125]
